@@ -79,6 +79,19 @@ M = {
     "bp_mask_via_max_shift": (CG, "(((self.raw_value >> (#lowest_bit #array_shift)) & ((#one << #number_of_bits) - #one)) << #shift_left)",
                               "(((self.raw_value >> (#lowest_bit #array_shift)) & (!(!(#one - #one) << #number_of_bits))) << #shift_left)", [], True),
     "bp_plus_instead_of_or": (CG, "self.raw_value & CLEAR_MASK | #new_bits", "(self.raw_value & CLEAR_MASK) + #new_bits", [], True),
+    "bp_set_via_with": (CG, """                    pub fn #setter_name(&mut self, field_value: #setter_type) {
+                        self.raw_value = #new_raw_value;""", """                    pub fn #setter_name(&mut self, field_value: #setter_type) {
+                        *self = self.#with_name(field_value);""", [], True),
+    "bp_debug_statement_form": (MO, """                    f.debug_struct(stringify!(#struct_name))
+                        #(#debug_fields)*
+                        .finish()""", """                    let mut d = f.debug_struct(stringify!(#struct_name));
+                    d #(#debug_fields)* ;
+                    d.finish()""", [], True),
+    "bp_xor_setter": (CG, "(self.raw_value & !(((#one << #number_of_bits) - #one) << #lowest_bit)) | ((#argument_converted as #internal_base_data_type) << #lowest_bit)",
+                      "self.raw_value ^ ((self.raw_value ^ ((#argument_converted as #internal_base_data_type) << #lowest_bit)) & (((#one << #number_of_bits) - #one) << #lowest_bit))", [], True),
+    "bp_bool_setter_branchless": (CG, "if #argument_converted { self.raw_value | (#one << #lowest_bit) } else { self.raw_value & !(#one << #lowest_bit) }",
+                                  "(self.raw_value & !(#one << #lowest_bit)) | ((#argument_converted as #internal_base_data_type) << #lowest_bit)", [], True),
+    "bp_enum_raw_value_match_free": (EN, "#raw_value_constructor(self as #base_type)", "#raw_value_constructor((self as #base_type) | 0)", [], True),
     "bp_rename_temp": (CG, "let extracted_bits = #extracted_bits;\n                            #convert_type::new_with_raw_value(extracted_bits)", "let raw_bits = #extracted_bits;\n                            #convert_type::new_with_raw_value(raw_bits)", [], True),
 }
 
